@@ -244,7 +244,7 @@ def t_process_batch(E, cancellable=False):
             raise Unsupported('async for over %r' % (src,), stn)
         f0, k0 = st['f0'], st['k0']
         E.oblige(tagq + '/call.batch_function_runs_inside_the_semaphore', z3.BoolVal(bool(st.get('in_sem'))),
-                 props={'C10'})
+                 props={'C10', 'C15'})
         fa = st.get('func_args') or []
         E.oblige(tagq + '/call.batch_function_gets_the_(key,arg)_list_of_the_batch',
                  z3.BoolVal(len(fa) == 1 and fa[0] is st.get('args')), props={'C04', 'C10'})
@@ -701,7 +701,8 @@ def t_get_next_batch(E):
         E.oblige(Qn + '/ensures.at_most_max_batch_size_items', n <= st['M_hi'], props={'C10', 'C15'},
                  detail='judged against the largest limit in force while items were added')
         E.oblige(Qn + '/ensures.items_are_the_next_contiguous_block_in_arrival_order',
-                 z3.And(seq == z3.Extract(arrivals, d0, n), d == d0 + n))
+                 z3.And(seq == z3.Extract(arrivals, d0, n), d == d0 + n), props={'C10', 'C04'},
+                 detail='an item taken off the queue but not handed on is a caller never answered')
         full = n >= o.fields['max_batch_size'].t
         timed = z3.And(z3.BoolVal(bool(st.get('timed_out'))),
                        now(E) == st.get('wait_start', now(E)) + T,
@@ -722,7 +723,7 @@ def _unsupp(m):
 
 def t_processing_loop(E):
     """_processing_loop: every batch goes to _process_batch in dequeue order, in its own task, never awaited."""
-    engine(E, {'C10'})
+    engine(E, {'C10', 'C04'})      # a batch that is assembled but never processed leaves its callers unanswered
     f = method(E, '_processing_loop')
     E.cur_func = f.qualname
     Qn = f.qualname
@@ -787,8 +788,8 @@ def t_processing_loop(E):
 
 
 TASKS.update({
-    'batcher._get_next_batch': (t_get_next_batch, {'C10', 'C15'}),
-    'batcher._processing_loop': (t_processing_loop, {'C10'}),
+    'batcher._get_next_batch': (t_get_next_batch, {'C10', 'C15', 'C04'}),
+    'batcher._processing_loop': (t_processing_loop, {'C10', 'C04'}),
 })
 
 
@@ -874,7 +875,7 @@ def t_call(E):
                 key_ok(k, node)
                 if not (isinstance(v, Obj) and v.cls == 'AFuture'):
                     raise Unsupported('retention entry %r' % (v,), node)
-                E.oblige(Qn + '/create.only_when_no_entry_exists', z3.Not(E.w['rc_has']), props={'C11'},
+                E.oblige(Qn + '/create.only_when_no_entry_exists', z3.Not(E.w['rc_has']), props={'C11', 'C04'},
                          detail='overwriting an entry would orphan its pending request')
                 E.w['rc_has'] = z3.BoolVal(True)
                 E.w['rc_fut'] = v.fields['fut']
@@ -1072,16 +1073,16 @@ def t_call(E):
                          z3.And(z3.BoolVal(bool(ok)), t.items[0].t == st['k'] if ok else z3.BoolVal(False),
                                 t.items[2].fields['fut'] == st['my_fut'] if ok else z3.BoolVal(False)),
                          props={'C11', 'C04'})
-            E.oblige(Qn + '/create.only_when_the_key_had_no_entry', z3.Not(pre['rc_has']), props={'C11'})
+            E.oblige(Qn + '/create.only_when_the_key_had_no_entry', z3.Not(pre['rc_has']), props={'C11', 'C04'})
             cbs = st.get('callbacks', [])
             forgot = st.get('deleted', 0) + st.get('timers', 0)
             E.oblige(Qn + '/exit.forget_now_or_leave_exactly_one_callback',
                      z3.BoolVal(forgot + len(cbs) == 1), props={'C11', 'C09'})
             if cbs:
                 E.oblige(Qn + '/exit.callback_only_while_the_request_is_unanswered',
-                         z3.Select(fut_world(E)[0], st['my_fut']) == PENDING, props={'C09'})
+                         z3.Select(fut_world(E)[0], st['my_fut']) == PENDING, props={'C09', 'C11'})
                 E.oblige(Qn + '/exit.callback_is_on_the_registered_future', z3.BoolVal(z3.eq(cbs[0][0], st['my_fut'])),
-                         props={'C09'})
+                         props={'C09', 'C11'})
             else:
                 E.w['owed'] = E.w['owed'] - 1
                 E.w['pend'] = z3.BoolVal(False)
@@ -1099,7 +1100,7 @@ def t_call(E):
                 E.oblige(Qn + '/forget.immediate_only_when_retention_is_zero', z3.Not(st['retention'] > 0), props={'C11'})
         else:
             E.oblige(Qn + '/share.nothing_enqueued_when_the_key_has_an_entry', z3.BoolVal(len(enq) == 0),
-                     props={'C11'})
+                     props={'C11', 'C04'})
             E.oblige(Qn + '/share.no_eviction_by_a_sharer',
                      z3.BoolVal(not st.get('deleted') and not st.get('timers') and not st.get('callbacks')),
                      props={'C11', 'C09', 'C04'},
